@@ -57,9 +57,13 @@ Term(o, ob, d, db, g) == [o |-> o, ob |-> ob, d |-> d, db |-> db, g |-> g]
 Cmp(vals, i, q) == IF ValLt(vals[i], vals[q]) THEN "win" ELSE IF ValLt(vals[q], vals[i]) THEN "loss" ELSE "tie"
 
 ---------------------------------------------------------------------------
+\* scale of the pair (i, q); TMPartDoubleC: the partial-pairing Thurstone-Mosteller model doubles it
+C0(P, A, i, q) == RSqrt(A[i].s2 ++ A[q].s2 ++ R2(RSq(P.beta)))
+PairC(kind, P, A, i, q) == IF kind = "TMP" THEN R2(C0(P, A, i, q)) ELSE C0(P, A, i, q)
+
 \* Bradley-Terry, one opponent q of team i
 BTPair(P, A, vals, cr, i, q) ==
-  LET ciq  == RSqrt(A[i].s2 ++ A[q].s2 ++ R2(RSq(P.beta)))
+  LET ciq  == C0(P, A, i, q)
       p    == "1" // ("1" ++ RExp((A[q].mu -- A[i].mu) // ciq))
       cm   == Cmp(vals, i, q)
       s    == IF cm = "win" THEN "1" ELSE IF cm = "tie" THEN "0.5" ELSE "0"
@@ -72,8 +76,7 @@ BTPair(P, A, vals, cr, i, q) ==
 
 \* Thurstone-Mosteller, one opponent q of team i
 TMPair(kind, P, A, vals, cr, i, q) ==
-  LET c0   == RSqrt(A[i].s2 ++ A[q].s2 ++ R2(RSq(P.beta)))
-      ciq  == IF kind = "TMP" THEN R2(c0) ELSE c0          \* TMPartDoubleC: the partial-pairing model doubles c_iq
+  LET ciq  == PairC(kind, P, A, i, q)
       x    == (A[i].mu -- A[q].mu) // ciq
       t    == P.kappa // ciq
       cm   == Cmp(vals, i, q)
@@ -103,11 +106,15 @@ PairwiseOD(kind, P, A, vals, cr, i) ==
 
 ---------------------------------------------------------------------------
 \* Plackett-Luce
+PLc(P, A)          == RSqrt(RSumSeq(Mat([i \in Idx(A) |-> A[i].s2 ++ RSq(P.beta)])))
+PLe(A, c)          == Mat([i \in Idx(A) |-> RExp(A[i].mu // c)])
+PLSumQ(A, vals, e) == Mat([q \in Idx(A) |-> RSumSet({s \in Idx(A) : ~ValLt(vals[s], vals[q])}, e)])
+
 PLAll(P, A, vals, cr) ==
   LET N    == Idx(vals)
-      c    == RSqrt(RSumSeq(Mat([i \in N |-> A[i].s2 ++ RSq(P.beta)])))
-      e    == Mat([i \in N |-> RExp(A[i].mu // c)])
-      sumq == Mat([q \in N |-> RSumSet({s \in N : ~ValLt(vals[s], vals[q])}, e)])
+      c    == PLc(P, A)
+      e    == PLe(A, c)
+      sumq == PLSumQ(A, vals, e)
       a    == TieSize(vals)
       OD(i) ==
         LET qs  == SetToSeq({q \in N : ~ValLt(vals[i], vals[q])})   \* teams ranked no worse than i
